@@ -992,11 +992,11 @@ impl FromStr for Epoch {
                 details: "less than 7 characters",
             })
         } else {
-            let format = if &s[..2] == "JD" {
+            let format = if s.starts_with("JD") {
                 "JD"
-            } else if &s[..3] == "MJD" {
+            } else if s.starts_with("MJD") {
                 "MJD"
-            } else if &s[..3] == "SEC" {
+            } else if s.starts_with("SEC") {
                 "SEC"
             } else {
                 // Not a valid format, hopefully it's a Gregorian date.
@@ -1004,13 +1004,19 @@ impl FromStr for Epoch {
             };
 
             // This is a valid numerical format.
-            // Parse the time scale from the last three characters (TS trims white spaces).
-            let ts = TimeScale::from_str(&s[s.len() - 3..]).with_context(|_| ParseSnafu {
+            // The time scale is the last word (its name may be two to five characters long).
+            let (num_str, ts_str) = match s[format.len()..].trim().rsplit_once(char::is_whitespace) {
+                Some((num_str, ts_str)) => (num_str.trim(), ts_str),
+                None => {
+                    return Err(HifitimeError::Parse {
+                        source: ParsingError::UnknownFormat,
+                        details: "expecting a value and a time scale",
+                    })
+                }
+            };
+            let ts = TimeScale::from_str(ts_str).with_context(|_| ParseSnafu {
                 details: "parsing from string",
             })?;
-            // Iterate through the string to figure out where the numeric data starts and ends.
-            let start_idx = format.len();
-            let num_str = s[start_idx..s.len() - ts.formatted_len()].trim();
             let value: f64 = match lexical_core::parse(num_str.as_bytes()) {
                 Ok(val) => val,
                 Err(_) => {
@@ -1020,6 +1026,13 @@ impl FromStr for Epoch {
                     })
                 }
             };
+            if !value.is_finite() {
+                // The initializers below refuse (panic on) non finite values.
+                return Err(HifitimeError::Parse {
+                    source: ParsingError::ValueError,
+                    details: "parsing as JD, MJD, or SEC",
+                });
+            }
 
             match format {
                 "JD" => match ts {
@@ -1027,16 +1040,16 @@ impl FromStr for Epoch {
                     TimeScale::TAI => Ok(Self::from_jde_tai(value)),
                     TimeScale::TDB => Ok(Self::from_jde_tdb(value)),
                     TimeScale::UTC => Ok(Self::from_jde_utc(value)),
-                    _ => Err(HifitimeError::Parse {
-                        source: ParsingError::UnsupportedTimeSystem,
-                        details: "for Julian Date",
-                    }),
+                    ts => Ok(Self::from_jde_in_time_scale(value, ts)),
                 },
                 "MJD" => match ts {
                     TimeScale::TAI => Ok(Self::from_mjd_tai(value)),
-                    TimeScale::UTC | TimeScale::GPST | TimeScale::BDT | TimeScale::GST => {
-                        Ok(Self::from_mjd_in_time_scale(value, ts))
-                    }
+                    TimeScale::UTC
+                    | TimeScale::TT
+                    | TimeScale::GPST
+                    | TimeScale::BDT
+                    | TimeScale::GST
+                    | TimeScale::QZSST => Ok(Self::from_mjd_in_time_scale(value, ts)),
                     _ => Err(HifitimeError::Parse {
                         source: ParsingError::UnsupportedTimeSystem,
                         details: "for Modified Julian Date",
